@@ -326,6 +326,11 @@ func (e *Engine) chanGet(st *State, ch Term, attr string) Term {
 }
 
 func (e *Engine) chanClose(st *State, ch Term, pos token.Pos) {
+	if e.cur != nil && e.cur.proto != nil && e.cur.proto.onClose(e, st, ch, pos) {
+		e.chanSet(st, ch, "closed", TTrue)
+		e.event(st, "chan.close", []Term{ch})
+		return
+	}
 	e.oblige(st, "safe", "close_nil_or_closed_channel", And(Neq(ch, IntLit(0)), Not(e.chanGet(st, ch, "closed"))), pos)
 	e.chanSet(st, ch, "closed", TTrue)
 	e.event(st, "chan.close", []Term{ch})
